@@ -40,7 +40,7 @@ class C11(Check):
     SHRINK = False
     RULE = ('seeded random supported specifications for each of the four monitor kinds (bounded future operators whose window exceeds the trace, variables used '
             'several times); (a) the arguments of every evaluate()/update() are deep-compared before/after; (b) offline objects evaluate the same data twice; '
-            '(c) two or three objects (discrete ones with unary bounded operators often get a twin that has the same text under another default time unit, or under another sampling period); dense online objects get their signal in one or two update() batches, the second one often starting with the last sample of the first; are driven with interleaved calls and compared with each object driven alone; (d) every case is re-run in separate '
+            '(c) two or three objects (discrete ones with unary bounded operators often get a twin that has the same text under another default time unit, or under another sampling period); objects that declare the same constant name with different values (or use it as a signal name) next to each other, each compared with an alpha-renamed copy run alone; dense online objects get their signal in one or two update() batches, the second one often starting with the last sample of the first; are driven with interleaved calls and compared with each object driven alone; (d) every case is re-run in separate '
             'interpreters under PYTHONHASHSEED 0..3 and the results compared byte for byte; non-trivial = formula with a temporal operator; distinct by (programs, schedule)')
 
     def gen_cases(self, rng, tier):
@@ -65,6 +65,22 @@ class C11(Check):
                 for pair in ([o1, o2], [o2, o1], [o3, o4], [o4, o3]):
                     order = [[0, ci] for ci in range(len(pair[0]['calls']))] + [[1, ci] for ci in range(len(pair[1]['calls']))]
                     cases.append({'objects': pair, 'schedule': order})
+        # objects that declare the same constant name with different values, and one that uses that name for a signal; the reference
+        # run of each object alone renames the identifier to a fresh one (a specification does not depend on the names it uses)
+        for kind in ('discrete-offline', 'discrete-online', 'dense-offline', 'dense-online'):
+            fk = lambda k: ('once', ('pred', 'geq', ('a2', 'sub', ('var', 0), ('const', k)), ('const', 0)))
+            n = 5
+            mk = lambda k: {'monitor': kind, 'vars': fml.VARS[:1], 'consts': [['kc', 'float', str(k)]], 'spec': 'out = once((xa - kc) >= 0)',
+                            'calls': calls_for(kind, fk(k), fml.gen_trace(rng, 1, n), list(range(n)), n), '_f': fml.to_sx(fk(k)), 'rename': ['kc']}
+            fs = ('once', ('pred', 'geq', ('a2', 'sub', ('var', 0), ('var', 1)), ('const', 0)))
+            oc = {'monitor': kind, 'vars': ['xa', 'kc'], 'spec': 'out = once((xa - kc) >= 0)', '_f': fml.to_sx(fs), 'rename': ['kc']}
+            calls = calls_for(kind, fs, fml.gen_trace(rng, 2, n), list(range(n)), n)
+            oc['calls'] = json.loads(json.dumps(calls).replace('"xb"', '"kc"'))
+            for trio in ([mk(3), mk(10), oc], [oc, mk(7)], [mk(2), oc, mk(5)]):
+                order = []
+                for oi, o in enumerate(trio):
+                    order += [[oi, ci] for ci in range(len(o['calls']))]
+                cases.append({'objects': trio, 'schedule': order})
         for i in range(nrand):
             objs = []
             for j in range(rng.choice([1, 2, 2, 3])):
@@ -110,8 +126,20 @@ class C11(Check):
     def impl_cases(self, c):
         out = [{'objects': c['objects'], 'schedule': c['schedule']}]
         for oi, o in enumerate(c['objects']):
-            out.append({'objects': [o], 'schedule': [[0, ci] for ci in range(len(o['calls']))]})
+            out.append({'objects': [self.renamed(o, oi)], 'schedule': [[0, ci] for ci in range(len(o['calls']))]})
         return out
+
+    @staticmethod
+    def renamed(o, oi):
+        """the object with the identifiers listed under 'rename' replaced by fresh ones (in the text, the declarations and the data)"""
+        if not o.get('rename'):
+            return o
+        import re, hashlib
+        txt = json.dumps(o, sort_keys=True)
+        tag = hashlib.sha1(txt.encode()).hexdigest()[:6]
+        for nm in o['rename']:
+            txt = re.sub(r'\b%s\b' % re.escape(nm), '%s_%d_%s' % (nm, oi, tag), txt)
+        return json.loads(txt)
 
     def judge(self, c, mlines, ires):
         inter = ires[0]
